@@ -244,13 +244,13 @@ def e_parafac(g):
     _cp_common(g, kw, shape, rank)
     g.opt(kw, "normalize_factors", [True], 0.25)
     g.opt(kw, "orthogonalise", [True, 1], 0.15)
-    g.opt(kw, "tol", [0, 1e-3], 0.3)
+    g.opt(kw, "tol", [0, 1e-3, None], 0.4)
     g.opt(kw, "l2_reg", [0.1], 0.15)
     g.opt(kw, "cvg_criterion", ["rec_error"], 0.15)
     g.opt(kw, "return_errors", [True], 0.3)
     g.opt(kw, "linesearch", [True], 0.2)
     g.opt(kw, "sparsity", [2, 0.2], 0.15)
-    if g.flag(0.3):
+    if g.flag(0.4):
         m = (g.arr(shape, nonneg=True, kinds=("c", "f", "slice")) > 0.3)
         kw["mask"] = m if g.flag() else m.astype(float)
     if g.flag(0.35):
